@@ -35,6 +35,26 @@ pub fn options(v: &Value, path: &Path) -> SecondaryStorageOptions {
     o
 }
 
+pub fn array_kind(a: &risinglight::array::ArrayImpl) -> &'static str {
+    use risinglight::array::ArrayImpl::*;
+    match a {
+        Null(_) => "Null",
+        Bool(_) => "Bool",
+        Int16(_) => "Int16",
+        Int32(_) => "Int32",
+        Int64(_) => "Int64",
+        Float64(_) => "Float64",
+        String(_) => "String",
+        Blob(_) => "Blob",
+        Vector(_) => "Vector",
+        Decimal(_) => "Decimal",
+        Date(_) => "Date",
+        Timestamp(_) => "Timestamp",
+        TimestampTz(_) => "TimestampTz",
+        Interval(_) => "Interval",
+    }
+}
+
 pub fn chunks_to_json(chunks: &[risinglight::array::Chunk]) -> Value {
     let mut results = vec![];
     for c in chunks {
@@ -248,6 +268,33 @@ pub fn run(v: &Value) -> Value {
                     }
                 }
                 outs.push(json!({"slept": ms}));
+            } else if let Some(sql) = step["typed"].as_str() {
+                // a query together with its static output types and the variants of the arrays it returns
+                let Some(dbr) = db.as_ref() else {
+                    outs.push(json!({"err": "database is closed"}));
+                    continue;
+                };
+                let stat = match dbr.verif_static_types(sql, step["optimize"].as_bool() != Some(false)).await {
+                    Ok(ts) => json!(ts.iter().map(|t| format!("{t:?}")).collect::<Vec<_>>()),
+                    Err(e) => json!({"err": errstr(e)}),
+                };
+                let fut = std::panic::AssertUnwindSafe(dbr.run(sql));
+                let r = futures::FutureExt::catch_unwind(fut).await;
+                outs.push(match r {
+                    Ok(Ok(chunks)) => {
+                        let mut runtime = vec![];
+                        let mut arity = vec![];
+                        for c in &chunks {
+                            for dc in c.data_chunks() {
+                                arity.push(dc.arrays().len());
+                                runtime.push(dc.arrays().iter().map(|a| array_kind(a).to_string()).collect::<Vec<_>>());
+                            }
+                        }
+                        json!({"ok": chunks_to_json(&chunks), "static": stat, "runtime": runtime, "arity": arity})
+                    }
+                    Ok(Err(e)) => json!({"err": errstr(e), "static": stat}),
+                    Err(p) => json!({"panic": panic_msg(p), "static": stat}),
+                });
             } else if let Some(t) = step["layout"].as_str() {
                 // physical state of a disk table: live row-sets, their stored rows, their DVs
                 let Some(dbr) = db.as_ref() else {
